@@ -492,6 +492,22 @@ class Translator:
                     return self.body(list(fn.body), env2, ind)
                 finally:
                     self.depth -= 1
+            # `if A and B:` / `if A or B:` (also under `not`) where a conjunct tests self.on_mutation: nested ifs
+            def mentions_cb(x):
+                return any(is_self_attr(y, "on_mutation") for y in ast.walk(x))
+            if isinstance(core, ast.BoolOp) and mentions_cb(core) and self.cb_test(t) is None:
+                tb, eb = (else_b, then_b) if neg else (then_b, else_b)
+                first, more = core.values[0], core.values[1:]
+                tail = more[0] if len(more) == 1 else ast.BoolOp(op=core.op, values=more)
+                if isinstance(core.op, ast.And):
+                    inner = ast.If(test=tail, body=tb, orelse=eb)
+                    synth = ast.If(test=first, body=[inner], orelse=eb)
+                else:
+                    inner = ast.If(test=tail, body=tb, orelse=eb)
+                    synth = ast.If(test=first, body=tb, orelse=[inner])
+                for x in (inner, synth):
+                    ast.copy_location(x, st)
+                return self.body([synth], env, ind)
             cbt = self.cb_test(t)
             if cbt is not None:
                 some_b, none_b = (then_b, else_b) if cbt else (else_b, then_b)
@@ -628,7 +644,14 @@ class Translator:
                 mv = env["locals"][tg.value.id][0]
                 if isinstance(v, ast.Call) and is_self_attr(v.func, "on_mutation"):
                     if env.get("cb") is None:
-                        bad(st, "approval callback called without a dominating test of self.on_mutation")
+                        # no dominating test on this path: split here; calling `None` is an error, the arm is poisoned and
+                        # the agreement proof only goes through if that arm is unreachable (e.g. guarded by a local flag)
+                        env_some = copy.deepcopy(env)
+                        env_some["cb"] = "cb"
+                        return (f"{pad}match g.cb with\n"
+                                f"{pad}| some cb =>\n{self.body(stmts, env_some, ind + 2)}\n"
+                                f"{pad}| none =>\n{pad}  untranslatable \"approval callback called while on_mutation is None "
+                                f"(line {st.lineno})\"")
                     if len(v.args) != 1 or v.keywords or not isinstance(v.args[0], ast.Name) \
                             or env["locals"].get(v.args[0].id, (None, None))[1] != "mut":
                         bad(st, "approval callback must be called with the mutation record")
@@ -718,8 +741,8 @@ class Translator:
             raise Unsupported("replicate not found")
         ctor, child = None, None
         for n in ast.walk(fn):
-            if isinstance(n, ast.Assign) and isinstance(n.value, ast.Call) and isinstance(n.value.func, ast.Name) \
-                    and n.value.func.id == "Genome":
+            if isinstance(n, ast.Assign) and isinstance(n.value, ast.Call) \
+                    and ast.unparse(n.value.func) in ("Genome", "type(self)", "self.__class__"):
                 if ctor is not None or len(n.targets) != 1 or not isinstance(n.targets[0], ast.Name):
                     bad(n, "more than one Genome(...) construction in replicate")
                 ctor, child = n.value, n.targets[0].id
